@@ -817,10 +817,17 @@ func (e *Enc) Encode() {
 	st := &State{heap: map[string]Term{}, locals: map[*ssa.Alloc]Term{}, now: e.now0}
 	e.cur = st
 	e.curReach = True
-	for _, pr := range fn.Params {
+	for i, pr := range fn.Params {
 		v := e.declare("p_"+sanitize(pr.Name()), e.sortOf(pr.Type()))
 		e.vals[pr] = Val{T: v, Typ: pr.Type()}
 		e.assert(e.typeInv(v, pr.Type(), e.now0))
+		// nil dereference is excluded as a class (DESIGN 3.4-1); the same goes for invoking a
+		// pointer-receiver method on nil
+		if i == 0 && fn.Signature.Recv() != nil {
+			if _, isPtr := pr.Type().Underlying().(*types.Pointer); isPtr {
+				e.assert(Ne(v, IntLit(0)))
+			}
+		}
 	}
 	for _, fv := range fn.FreeVars {
 		v := e.declare("fv_"+sanitize(fv.Name()), e.sortOf(fv.Type()))
